@@ -306,7 +306,7 @@ int AsmContext::assemble()
           token2[ptr] = 0;
           tokens_unget_char(this, ch);
           macros_strip(token2);
-          macros_append(this, token, token2, 0);
+          if (macros_append(this, token, token2, 0) != 0) { return -1; }
         }
           else
         {
